@@ -84,6 +84,20 @@ func runC03(cs CaseSpec) *CaseResult {
 		d = genDagFromShape(rng, cs.Seed*7919+int64(cs.Index), shapeCorpus[shape], sp.N)
 		res.count("dag_from_shape_corpus", 1)
 	}
+	if cs.I("backlog", 0) == 1 {
+		// a long history in which one creator is not heard by anybody for a while (it
+		// still listens): its backlog reaches a node long after the events it builds on
+		// were committed (and, with a small cache, evicted)
+		sp2 := sp
+		sp2.Hidden = true
+		sp2.HiddenHalf = sp.N - 1
+		sp2.HideFrom = 0.15 + 0.2*rng.Float64()
+		sp2.HideTo = sp2.HideFrom + 0.3 + 0.25*rng.Float64()
+		sp2.Private = 0
+		sp2.NoOtherFirst = 0
+		d = genDag(rng, cs.Seed*7919+int64(cs.Index), sp2)
+		res.count("dag_with_unheard_creator_backlog", 1)
+	}
 	var stragglerIdx []int
 	if cs.I("straggler", 0) == 1 {
 		// many creators, one of them heard by only half of the others for a while:
@@ -215,6 +229,9 @@ func runC03(cs CaseSpec) *CaseResult {
 	if cs.I("coin", 0) == 1 || cs.I("straggler", 0) == 1 {
 		nAnc = 10
 	}
+	if cs.I("backlog", 0) == 1 {
+		nAnc = 1 // long histories: the budget goes to the store and cache variants
+	}
 	if cs.I("coin", 0) == 1 {
 		// targeted: the view of a node that reaches a later witness without knowing
 		// the witnesses that decided an election just before its coin round
@@ -265,6 +282,25 @@ func runC03(cs CaseSpec) *CaseResult {
 	for _, c := range []int{W, W + W/2, 2 * W} {
 		if c < big {
 			vs = append(vs, variant{"cache", fmt.Sprintf("Badger, cache %d (in-flight window bound W=%d), random order", c, W), d.randomLinearExtension(rng, nil), ExecOpts{Store: "badger", Cache: c, Batch: 1, Dir: dir}, false})
+		}
+	}
+	if cs.I("backlog", 0) == 1 {
+		// small caches together with late arrivals: the cache is sized from the
+		// in-flight bound of that very arrival order (measured in memory first)
+		for l := 0; l < sp.N; l++ {
+			order := d.delayedExtension(rng, l)
+			pre := execDag(d, order, ExecOpts{Store: "inmem", Cache: big, Batch: 1})
+			res.Evaluations++
+			if pre.Err != nil {
+				pre.close()
+				continue
+			}
+			wl := 2*pre.MaxUndet + 4*sp.N
+			pre.close()
+			if wl < len(d.Events) {
+				res.count("dag_variants_cache_with_late_creator", 1)
+				vs = append(vs, variant{"cache", fmt.Sprintf("Badger, cache %d (twice the in-flight bound of this order), creator %d's events arrive as late as possible", wl, l), order, ExecOpts{Store: "badger", Cache: wl, Batch: 1, Dir: dir}, false})
+			}
 		}
 	}
 	for _, b := range []int{2, 5, 17, 0} {
@@ -369,6 +405,12 @@ func init() {
 					cs[i].S = map[string]string{"shape": []string{"long-election", "straggler-round"}[(i/8)%2]}
 					cs[i].P["coin"] = 1
 					cs[i].P["n"] = 4
+					continue
+				}
+				if i%8 == 6 {
+					cs[i].P["backlog"] = 1
+					cs[i].P["n"] = []int64{4, 5, 4, 7}[(i/8)%4]
+					cs[i].P["events"] = int64(560 + (i*29)%240)
 					continue
 				}
 				if i%8 == 1 {
